@@ -102,11 +102,13 @@ def main(argv=None) -> int:
         for m in selftest["missed"]:
             print(f"CHECKER-WEAKNESS property={prop} variant={m}")
     if violations:
-        for n, f in enumerate(violations, 1):
+        for n, f in enumerate(violations[:12], 1):
             path = write_replay(prop, n, f) if not os.environ.get("VSTAT_NO_EVIDENCE") else "-"
             where = f"{f.file}:{f.line}" if f.file else "-"
-            print(f"  {f.rule} {where} {f.function or ''}: {f.what}")
+            print(f"  {f.rule} {where} {f.function or ''}: {f.what[:700]}")
             print(f"VIOLATION property={prop} replay={path}")
+        if len(violations) > 12:
+            print(f"  ... and {len(violations) - 12} further failing rule instances (rules: {sorted({f.rule for f in violations})})")
         return 1
     return 0
 
